@@ -844,3 +844,184 @@ Lemma arith_rejection_rejects_update f s ps v :
   f (if is_missing (Get (fst s) ps) then VInt32 0 else Get (fst s) ps) v = Ok VMissing ->
   apply_arith f s ps v = Err.
 Proof. intro H. unfold apply_arith. rewrite H. reflexivity. Qed.
+
+(* ------------------------------------------------------------------ *)
+(* idempotence of updates that combine SEVERAL operators of the class
+   $set / $min / $max / $addToSet / $pull / $pullAll *)
+
+(* one operator invocation: decision function, path, argument *)
+Definition inv : Type := (value -> value -> res decision) * string * value.
+Definition inv_path (i : inv) : string := snd (fst i).
+
+Fixpoint run_inv (l : list inv) (s : st) : res st :=
+  match l with
+  | [] => Ok s
+  | (dc, p, v) :: t => let* s' := decided_op dc s p v in run_inv t s'
+  end.
+
+Definition idem_decide (dc : value -> value -> res decision) : Prop :=
+  forall cur v w, dc cur v = Ok (Write w) -> is_missing w = false -> dc w v = Ok Keep \/ dc w v = Ok (Write w).
+
+Definition settled_inv (D : doc) (i : inv) : Prop := settled (fst (fst i)) D (inv_path i, snd i).
+
+Lemma run_inv_app a : forall b s, run_inv (a ++ b) s = let* s1 := run_inv a s in run_inv b s1.
+Proof.
+  induction a as [|[[dc p] v] t IH]; intros b s; [reflexivity|]. cbn [app run_inv].
+  destruct (decided_op dc s p v); cbn [bind]; try reflexivity. apply IH.
+Qed.
+
+Lemma run_inv_frame l : forall d ch dn chn q,
+  run_inv l (d, ch) = Ok (dn, chn) ->
+  Forall (fun i => field_path (split_path (inv_path i))) l ->
+  Forall (fun i => disjoint (split_path (inv_path i)) q) l ->
+  get_path dn q = get_path d q.
+Proof.
+  induction l as [|[[dc p] v] t IH]; intros d ch dn chn q H F D.
+  - cbn in H. injection H as <- <-. reflexivity.
+  - cbn [run_inv] in H. inversion F; subst. inversion D; subst. unfold inv_path in *. cbn [fst snd] in *.
+    destruct (decided_op dc (d, ch) p v) as [[d1 ch1]| | | |] eqn:E; cbn [bind] in H; try discriminate.
+    rewrite (IH _ _ _ _ _ H) by assumption.
+    unfold decided_op in E. cbn [fst] in E.
+    destruct (dc (Get d p) v) as [[|w]| | | |]; cbn [bind] in E; try discriminate.
+    + injection E as <- <-. reflexivity.
+    + destruct (put_record_ok _ _ _ _ _ _ E) as (old & P & _). eapply get_put_frame_field; eauto.
+Qed.
+
+Lemma first_run_settles_inv l : forall d ch dn chn,
+  run_inv l (d, ch) = Ok (dn, chn) ->
+  Forall (fun i => idem_decide (fst (fst i))) l ->
+  Forall (fun i => field_path (split_path (inv_path i))) l ->
+  pairwise_disjoint (map inv_path l) ->
+  Forall (settled_inv dn) l.
+Proof.
+  induction l as [|[[dc p] v] t IH]; intros d ch dn chn H I F PD; [constructor|].
+  cbn [run_inv] in H. inversion I as [|? ? Idc It]; subst. inversion F as [|? ? Fp Ft]; subst.
+  cbn [map pairwise_disjoint] in PD. destruct PD as [Dp PDt]. unfold inv_path in *. cbn [fst snd] in *.
+  destruct (decided_op dc (d, ch) p v) as [[d1 ch1]| | | |] eqn:E; cbn [bind] in H; try discriminate.
+  constructor; [|eapply IH; eauto].
+  pose proof (op_settles dc Idc _ _ _ _ _ _ (field_path_canon _ Fp) E) as S.
+  assert (G : Get dn p = Get d1 p).
+  { eapply run_inv_frame; eauto. rewrite Forall_forall in *. intros i Hin.
+    apply disjoint_sym. apply Dp. apply in_map_iff. exists i. split; [reflexivity | exact Hin]. }
+  unfold settled_inv, settled, inv_path in *. cbn [fst snd] in *. rewrite G. exact S.
+Qed.
+
+Lemma settled_run_inv l : forall D ch,
+  Forall (settled_inv D) l -> pairwise_disjoint (map inv_path l) ->
+  (forall kv, In kv ch -> Forall (fun p => disjoint (split_path (fst kv)) (split_path p)) (map inv_path l)) ->
+  exists ch', run_inv l (D, ch) = Ok (D, ch').
+Proof.
+  induction l as [|[[dc p] v] t IH]; intros D ch S PD Hch; [eexists; reflexivity|].
+  inversion S as [|? ? Sp St]; subst. cbn [map pairwise_disjoint] in PD. destruct PD as [Dp PDt].
+  unfold settled_inv, inv_path in Sp. cbn [fst snd] in *. cbn [run_inv].
+  assert (Hp : forall kv, In kv ch -> disjoint (split_path (fst kv)) (split_path p)).
+  { intros kv Hin. specialize (Hch kv Hin). inversion Hch; assumption. }
+  destruct (settled_step dc D ch p v Sp Hp) as [R|[w R]]; rewrite R; cbn [bind].
+  - apply IH; auto. intros kv Hin. specialize (Hch kv Hin). inversion Hch; assumption.
+  - apply IH; auto. intros kv Hin. apply in_app_or in Hin. destruct Hin as [Hin|[<-|[]]].
+    + specialize (Hch kv Hin). inversion Hch; assumption.
+    + exact Dp.
+Qed.
+
+Theorem run_inv_idempotent l d dn chn :
+  Forall (fun i => idem_decide (fst (fst i))) l ->
+  Forall (fun i => field_path (split_path (inv_path i))) l ->
+  pairwise_disjoint (map inv_path l) ->
+  run_inv l (d, []) = Ok (dn, chn) ->
+  exists ch2, run_inv l (dn, []) = Ok (dn, ch2).
+Proof.
+  intros I F PD H. apply settled_run_inv; [eapply first_run_settles_inv; eauto | exact PD | intros ? []].
+Qed.
+
+(* the decision function of each operator of the class *)
+Definition decide_of (m : doc -> doc -> res bool) (k : string) : value -> value -> res decision :=
+  if String.eqb k "$set" then decide_set
+  else if String.eqb k "$max" then decide_minmax is_lt
+  else if String.eqb k "$min" then decide_minmax is_gt
+  else if String.eqb k "$addToSet" then decide_add_to_set
+  else if String.eqb k "$pull" then decide_pull m
+  else decide_pull_all.
+
+Lemma decide_of_spec m k op :
+  idem_operator m k op ->
+  (forall s ps v, op s ps v = decided_op (decide_of m k) s ps v) /\ idem_decide (decide_of m k).
+Proof.
+  intro H. destruct H; unfold decide_of; cbn [String.eqb Ascii.eqb Bool.eqb]; split.
+  - exact apply_set_decided. - exact decide_set_idem.
+  - exact (apply_minmax_decided is_lt). - exact (decide_minmax_idem is_lt eq_refl).
+  - exact (apply_minmax_decided is_gt). - exact (decide_minmax_idem is_gt eq_refl).
+  - exact apply_add_to_set_decided. - exact decide_add_to_set_idem.
+  - exact (apply_pull_decided m). - exact (decide_pull_idem m).
+  - exact apply_pull_all_decided. - exact decide_pull_all_idem.
+Qed.
+
+(* an update all of whose operators belong to the class, on plain paths *)
+Inductive idem_update (m : doc -> doc -> res bool) : doc -> Prop :=
+| iu_nil : idem_update m []
+| iu_cons k op pairs t :
+    idem_operator m k op -> plain_pairs pairs -> idem_update m t -> idem_update m ((k, VDoc pairs) :: t).
+
+Fixpoint flatten (m : doc -> doc -> res bool) (u : doc) : list inv :=
+  match u with
+  | [] => []
+  | (k, VDoc pairs) :: t => map (fun pv => (decide_of m k, fst pv, snd pv)) pairs ++ flatten m t
+  | _ :: t => flatten m t
+  end.
+
+Lemma run_as_inv dc pairs : forall s, run (decided_op dc) pairs s = run_inv (map (fun pv => (dc, fst pv, snd pv)) pairs) s.
+Proof.
+  induction pairs as [|[p v] t IH]; intro s; [reflexivity|]. cbn [run map run_inv fst snd].
+  destruct (decided_op dc s p v); cbn [bind]; try reflexivity. apply IH.
+Qed.
+
+Lemma apply_ops_flatten m up now fs u : idem_update m u ->
+  forall s, apply_ops m up now fs u s = run_inv (flatten m u) s.
+Proof.
+  induction 1 as [|k op pairs t I PP _ IH]; intro s; [reflexivity|].
+  destruct (idem_operator_registered m up now _ _ I) as [Hk [g Ha]].
+  destruct (decide_of_spec _ _ _ I) as [E _].
+  cbn [apply_ops flatten]. rewrite Hk, Ha, apply_pairs_plain by exact PP.
+  rewrite (run_ext _ _ _ E), run_as_inv, run_inv_app.
+  destruct (run_inv (map (fun pv => (decide_of m k, fst pv, snd pv)) pairs) s); cbn [bind]; try reflexivity. apply IH.
+Qed.
+
+Lemma flatten_paths m u : idem_update m u -> map inv_path (flatten m u) = named_paths u.
+Proof.
+  induction 1 as [|k op pairs t I PP _ IH]; [reflexivity|].
+  destruct (idem_operator_registered m Datatypes.false 0 _ _ I) as [Hk _].
+  cbn [flatten]. rewrite map_app.
+  change ((k, VDoc pairs) :: t) with ([(k, VDoc pairs)] ++ t)%list. unfold named_paths at 1. rewrite flat_map_app.
+  fold (named_paths [(k, VDoc pairs)]). fold (named_paths t).
+  rewrite (named_paths_single _ _ Hk (idem_operator_not_rename _ _ _ I)).
+  f_equal; [|exact IH]. rewrite map_map. reflexivity.
+Qed.
+
+Lemma flatten_idem m u : idem_update m u -> Forall (fun i => idem_decide (fst (fst i))) (flatten m u).
+Proof.
+  induction 1 as [|k op pairs t I PP _ IH]; [constructor|]. cbn [flatten]. apply Forall_app. split; [|exact IH].
+  apply Forall_forall. intros i Hi. apply in_map_iff in Hi. destruct Hi as (pv & <- & _). cbn [fst].
+  exact (proj2 (decide_of_spec _ _ _ I)).
+Qed.
+
+(* ANY accepted update built from $set / $min / $max / $addToSet / $pull /
+   $pullAll (several operators, any number of paths each) on plain field paths
+   is idempotent *)
+Theorem apply_idempotent_update m d q u up fs now d1 ch1 :
+  idem_update m u ->
+  Forall (fun p => field_path (split_path p)) (named_paths u) ->
+  apply_with m d q u up fs now = Ok (d1, ch1) ->
+  exists ch2, apply_with m d1 q u up fs now = Ok (d1, ch2).
+Proof.
+  intros IU F H.
+  pose proof (apply_with_ok_no_conflict _ _ _ _ _ _ _ _ H) as NC.
+  assert (Hu : u <> []) by (intro E; subst u; discriminate).
+  rewrite apply_with_accept in H by assumption. rewrite apply_ops_flatten in H by exact IU.
+  destruct (run_inv (flatten m u) (d, [])) as [[d' ch]| | | |] eqn:R; cbn [bind fst snd] in H; try discriminate.
+  injection H as <- _.
+  assert (PD : pairwise_disjoint (map inv_path (flatten m u))).
+  { rewrite flatten_paths by exact IU. apply pairwise_free_disjoint; [apply first_conflict_none; exact NC | exact F]. }
+  assert (FF : Forall (fun i => field_path (split_path (inv_path i))) (flatten m u)).
+  { rewrite <- (flatten_paths m u IU) in F. rewrite Forall_map in F. exact F. }
+  destruct (run_inv_idempotent _ _ _ _ (flatten_idem _ _ IU) FF PD R) as [ch2 R2].
+  rewrite apply_with_accept by assumption. rewrite apply_ops_flatten by exact IU. rewrite R2. cbn [bind fst snd]. eauto.
+Qed.
